@@ -346,7 +346,21 @@ class CertFam(Family):
         for _ in range(rng.randrange(6, 16)):
             rng.shuffle(ids)
             use = ids[:max(1, min(n, rng.choice([1, 1, 2, q, q])))]
-            kind = rng.choice(["single", "single", "qc", "batch", "tc", "digest-clash"])
+            kind = rng.choice(["single", "single", "qc", "batch", "tc", "digest-clash", "batch-boundary"])
+            if kind == "batch-boundary" and len(ids) >= 2:
+                # two batches whose per-signer messages, written one after the other with the signer ids but
+                # WITHOUT their lengths, read the same: {i: X, j: Y1|j|Y2} and {i: X|j|Y1, j: Y2}
+                i, j = sorted(rng.sample(ids, 2))
+                jb = "%02x%02x%02x%02x" % (j & 255, (j >> 8) & 255, 0, 0)
+                x, y1, y2 = "6161", "626262", "63"
+                a = nm("bb")
+                L.append(f"sign {i} hex:{x} {a}i")
+                L.append(f"sign {j} hex:{y1}{jb}{y2} {a}j")
+                L.append(f"combine {R()} {a} {a}i {a}j")
+                L.append(f"batch-verify {v} {a} {i}=hex:{x},{j}=hex:{y1}{jb}{y2}")      # warm (batch kind)
+                L.append(f"batch-verify {v} {a} {i}=hex:{x}{jb}{y1},{j}=hex:{y2}")      # same bytes in a row, other messages
+                L.append(f"batch-verify {v} {a} {i}=hex:{x},{j}=hex:{y1}{jb}{y2}")
+                continue
             if kind == "digest-clash":
                 # a signature over the very bytes the cache hashes for the one-entry batch {i: m} (id, length, m),
                 # remembered as valid for that MESSAGE, is not a signature over the batch
